@@ -144,6 +144,35 @@ type OuterQ struct {
 	Note string
 }
 
+// ---------------------------------------------------------------- members whose first letter is not ASCII
+
+// Wide has fields and methods whose names begin with a letter outside ASCII (Go exports a name whose first letter
+// is upper-case in Unicode's sense), an unexported field that is the lower-camel spelling of an exported one, and
+// plain ASCII neighbours.
+type Wide struct {
+	Ärger     string
+	Übersicht int
+	Name      string
+	Ωmega     string
+	Élan      []string
+	ärger     int
+	Next      *Wide
+}
+
+// Österreich has a value receiver.
+func (w Wide) Österreich() string { return "at:" + w.Ärger }
+
+// Ñandú has a pointer receiver.
+func (w *Wide) Ñandú() int { return w.Übersicht + 1 }
+
+// WideBox holds a Wide by value and by pointer under names outside ASCII.
+type WideBox struct {
+	Über  Wide
+	Öl    *Wide
+	Жук   string
+	Title string
+}
+
 // Types lists every type of the family by name ("inner" is reachable only through this table).
 var Types = map[string]interface{}{
 	"PairEU": PairEU{}, "PairUE": PairUE{}, "PairMix": PairMix{}, "PairDeep": PairDeep{},
@@ -151,4 +180,5 @@ var Types = map[string]interface{}{
 	"Inner": Inner{}, "inner": inner{}, "Meta": Meta{},
 	"OuterEU": OuterEU{}, "OuterUE": OuterUE{}, "OuterX": OuterX{}, "OuterY": OuterY{},
 	"OuterP": OuterP{}, "OuterQ": OuterQ{},
+	"Wide": Wide{}, "WideBox": WideBox{},
 }
